@@ -6,9 +6,7 @@
                                         array is never written); without the copy the translator fails closed.
      to_cent_voicing_pad_ref_partial,   statement-level ties: the first two statements of to_cent_voicing (insert a sample at time 0
      to_cent_voicing_pad_est_partial    into the time, frequency and optional reward / voicing arrays) = Melody.add_time0, including the
-                                        IndexError cases. PARTIAL: the rest of to_cent_voicing (the calls of freq_to_voicing, hz2cents,
-                                        resample_melody_series, constant_hop_timebase and the final length adjustment) is translated
-                                        (gen_mel_to_cent_voicing) but not proved equal to Melody.to_cent_voicing here. *)
+                                        IndexError cases. They are the first half of the full tie to_cent_voicing_tie of FrameTieCent.v. *)
 From Coq Require Import String.
 From Coq Require Import List Bool Arith ZArith QArith Qabs Qminmax Qround Lia Lqa.
 From ME Require Import Model.Prelude Model.Events Model.FrameExp Gen.FrameGen Proofs.FrameTie.
